@@ -261,7 +261,16 @@ pub fn handoff_check(cx: &mut Ctx, hostile_world: bool) {
                         if !leaked.is_empty() {
                             let role = leaked.iter().any(|l| l.starts_with("role="));
                             let fp = if role { "C02/leaked_role" } else { "C02/leaked_guc" };
-                            cx.v("C02", "leaked_session_state", &format!("{}/prev_stop={}", fp, stop), st.rec.seq, format!("backend conn {} (pid {}) given to client {} with session parameters still set: {:?}; {}", ci, conn.pid, c, leaked, how));
+                            // Where did the value come from? A plain SET issued inside a transaction
+                            // block that was then committed is a cause of its own (the pooler
+                            // deliberately does not track SET inside transactions).
+                            let first_key = snap.gucs.iter().find(|(k, _)| !TRACKED.contains(&k.as_str())).map(|(k, _)| k.to_ascii_uppercase()).unwrap_or_default();
+                            let set_in_txn = h.stmts.iter().filter(|e| e.conn == ci && e.rec.seq < st.rec.seq).rev().find(|e| {
+                                let up = e.rec.sql.trim_start().to_ascii_uppercase();
+                                (up.starts_with("SET ") && !up.starts_with("SET LOCAL") && up.contains(&first_key)) || (first_key == "ROLE" && up.starts_with("SET ROLE"))
+                            }).map(|e| e.rec.snap.txn == b'T').unwrap_or(false);
+                            let cause = if set_in_txn { "/cause=set_inside_committed_transaction" } else { "" };
+                            cx.v("C02", "leaked_session_state", &format!("{}/prev_stop={}{}", fp, stop, cause), st.rec.seq, format!("backend conn {} (pid {}) given to client {} with session parameters still set: {:?}; {}", ci, conn.pid, c, leaked, how));
                         }
                         if !snap.sql_prepared.is_empty() {
                             cx.v("C02", "leaked_sql_prepare", &format!("C02/leaked_sql_prepare/prev_stop={}", stop), st.rec.seq, format!("backend conn {} (pid {}) given to client {} with SQL-prepared statements {:?}; {}", ci, conn.pid, c, snap.sql_prepared, how));
